@@ -521,7 +521,10 @@ class C08(Prop):
                    "(error count, first error line and message, or the full AST). Oracle: returned, no panic, program or "
                    ">= 1 error with line >= 1; open-construct prefixes and illegal characters rejected.")
     assumptions = ["an unterminated '{{ expr' with no closing '}}' at the very end of the input is not counted as an open "
-                   "construct (the property lists block, object literal, string, comment, directive argument list)"]
+                   "construct (the property lists block, object literal, string, comment, directive argument list)",
+                   "the goroutine stack is not modelled: the parser recurses to a depth that the theorems bound by 6 x the number of "
+                   "tokens, and the runtime's 1 GB stack limit is reached by about 10^6 nested constructs (a source of several "
+                   "megabytes such as 1,000,000 x '@if(true)'); generated inputs nest at most a few dozen levels"]
 
     def generate(self, rng, tier):
         cases = []   # (idprefix, kind, bytes)
@@ -666,7 +669,10 @@ class C09(Prop):
     explanation = ("Correspondence: render model = implementation (the model marks every Go panic site with an explicit "
                    "Panic outcome). Oracle: the implementation returned output or an error, never panicked or crashed; "
                    "evaluation errors carry a line >= 1.")
-    assumptions = ["infinite loops written in the template (e.g. @for(;;) with no break) are not crashes and are skipped"]
+    assumptions = ["infinite loops written in the template (e.g. @for(;;) with no break) are not crashes and are skipped",
+                   "the goroutine stack is not modelled: the evaluator recurses to the depth of the AST (proved finite, not bounded by "
+                   "a constant), and an expression or block nested some 10^6 levels deep exhausts the runtime's 1 GB stack; generated "
+                   "programs nest at most a few dozen levels"]
 
     ATOMS = ["1", "0", "-1", "2", "7", "sv", "uv", "av", "ev", "fv", "gv", "iv", "mv", "bv", "ov", "pv", "np", "st", "nn", "u8",
              "u64", "f32", "deep", '"s"', '""', "true", "false", "nil", "3.5", "0.5", "[1,2]", "[]", "{k: 1}", "{}", "av[0]",
